@@ -31,10 +31,21 @@ type Solver struct {
 	Errors   int
 	Wall     time.Duration
 	MaxQuery time.Duration
+	Restarts int // solver processes killed by the watchdog (or lost) and replaced
 }
 
 // NewSolver starts a solver: "z3" (4.8.12), "z3-new" (5.1.0) or "cvc5".
 func NewSolver(name string, timeout time.Duration) (*Solver, error) {
+	s := &Solver{Name: name, Timeout: timeout}
+	if err := s.start(); err != nil {
+		return nil, err
+	}
+	return s, nil
+}
+
+// start (re)starts the solver process.
+func (s *Solver) start() error {
+	name, timeout := s.Name, s.Timeout
 	var cmd *exec.Cmd
 	switch name {
 	case "z3", "z3-new":
@@ -42,21 +53,22 @@ func NewSolver(name string, timeout time.Duration) (*Solver, error) {
 	case "cvc5":
 		cmd = exec.Command("cvc5", "--incremental", "--produce-models", "--lang=smt2", fmt.Sprintf("--tlimit-per=%d", timeout.Milliseconds()))
 	default:
-		return nil, fmt.Errorf("unknown solver %q", name)
+		return fmt.Errorf("unknown solver %q", name)
 	}
 	in, err := cmd.StdinPipe()
 	if err != nil {
-		return nil, err
+		return err
 	}
 	out, err := cmd.StdoutPipe()
 	if err != nil {
-		return nil, err
+		return err
 	}
 	cmd.Stderr = cmd.Stdout
 	if err := cmd.Start(); err != nil {
-		return nil, err
+		return err
 	}
-	return &Solver{Name: name, cmd: cmd, in: in, out: bufio.NewReaderSize(out, 1<<16), Timeout: timeout}, nil
+	s.cmd, s.in, s.out = cmd, in, bufio.NewReaderSize(out, 1<<16)
+	return nil
 }
 
 func (s *Solver) Close() {
@@ -72,14 +84,33 @@ const endMarker = "~~END~~"
 
 // Run sends a script and returns the output lines up to the end marker.
 func (s *Solver) run(script string) ([]string, error) {
+	if s.cmd == nil {
+		if err := s.start(); err != nil {
+			return nil, err
+		}
+	}
+	// watchdog: z3 does not always honour (set-option :timeout): a query that has not answered
+	// well after its cap gets its process killed; the answer is then inconclusive ("error",
+	// never a verdict) and the next query starts a fresh process
+	proc := s.cmd.Process
+	wd := time.AfterFunc(s.Timeout+30*time.Second, func() { _ = proc.Kill() })
+	defer wd.Stop()
+	fail := func(lines []string, err error) ([]string, error) {
+		s.in.Close()
+		_ = proc.Kill()
+		_ = s.cmd.Wait()
+		s.cmd = nil
+		s.Restarts++
+		return lines, err
+	}
 	if _, err := io.WriteString(s.in, script+"\n(echo \""+endMarker+"\")\n"); err != nil {
-		return nil, err
+		return fail(nil, err)
 	}
 	var lines []string
 	for {
 		l, err := s.out.ReadString('\n')
 		if err != nil {
-			return lines, err
+			return fail(lines, err)
 		}
 		l = strings.TrimSpace(l)
 		if l == endMarker || l == "\""+endMarker+"\"" {
